@@ -193,7 +193,7 @@ def _write_preamble(nw: NinjaWriter):
     module_rule(
         nw,
         "write_config_for_mergeable",
-        "--color_format $color_format $in $out",
+        "--color_format $color_format $options $in $out",
     )
     nw.newline()
 
@@ -273,11 +273,22 @@ def _write_font(nw: NinjaWriter, output_file: Path, inputs: WriteFontInputs):
 def _write_config_for_mergeable(
     nw: NinjaWriter, config_file: Path, input_font: Path, color_format: str
 ):
+    # the options given to maximum_color that the font building step acts on
+    font_config = config.load()
+    options = [
+        f"--reuse_tolerance {font_config.reuse_tolerance}",
+        f"--bitmap_resolution {font_config.bitmap_resolution}",
+        "--ignore_reuse_error"
+        if font_config.ignore_reuse_error
+        else "--noignore_reuse_error",
+    ]
+    if font_config.clipbox_quantization is not None:
+        options.append(f"--clipbox_quantization {font_config.clipbox_quantization}")
     nw.build(
         config_file,
         "write_config_for_mergeable",
         input_font,
-        variables={"color_format": color_format},
+        variables={"color_format": color_format, "options": " ".join(options)},
     )
     nw.newline()
 
